@@ -69,9 +69,9 @@ RP0(t) ==   \* prefix rendering of a paren-free tree
 \* ---- the bounded set of typed trees ----
 IL0 == {V("n"), C(I(1))}
 BL0 == {V("x"), C(B(TRUE))}
-Ar == {"*", "+"} \cup (IF Big THEN {"-", "%"} ELSE {})
-Cm == {"==", "<"} \cup (IF Big THEN {"!=", ">="} ELSE {})
-Lg == {"&&", "||"} \cup (IF Big THEN {"&", "|"} ELSE {})
+Ar == {"*", "+"}
+Cm == {"==", "<"}
+Lg == {"&&", "||"}
 I1 == IL0 \cup {O(o, <<a, b>>) : o \in Ar, a \in IL0, b \in IL0} \cup {O("f", <<a>>) : a \in IL0}
           \cup {Paren(a) : a \in {V("n")}} \cup {O("f", <<>>)}
 I2 == I1 \cup {O(o, <<a, b>>) : o \in Ar, a \in I1, b \in I1}
@@ -87,18 +87,25 @@ B2 == {O(o, <<a, b>>) : o \in Cm, a \in I2, b \in I1}
       \cup {O("f", <<a, b, c>>) : a \in B1 \ BL0, b \in {V("n")}, c \in I1 \ IL0}
 B3 == {O(o, <<a, b>>) : o \in Lg, a \in {t \in B2 : t.k = "o" /\ t.v \in Lg \cup {"!", "paren"}}, b \in {V("x"), O("!", <<V("x")>>), O("==", <<V("n"), C(I(1))>>)}}
       \cup {O(o, <<b, a>>) : o \in Lg, a \in {t \in B2 : t.k = "o" /\ t.v \in Lg \cup {"!", "paren"}}, b \in {V("x"), O("!", <<V("x")>>)}}
-Trees == IF Big THEN B2 \cup B3 ELSE B2
+Alt == {O(o, <<a, b>>) : o \in {"-", "%", "/", "!=", ">=", ">", "<=", "=", "&", "|"}, a \in I1, b \in I1 \ IL0}
+Trees == IF Big THEN B2 \cup B3 \cup Alt ELSE B2
 
-PCI == [StdPC EXCEPT !.ops = {"f", "g", "h", "p"}]
+PCI == [StdPC EXCEPT !.ops = {"f", "g", "h", "p", "one", "zt", "zf"}]
+\* (initial states are enumerated by one thread: the set is entered through one state per
+\* top-level shape, so that the workers share the trees)
 VARIABLE t
-Init == t \in Trees
-Next == UNCHANGED t
+Tops == {"&&", "||", "&", "|", "==", "<", "!=", ">=", ">", "<=", "=", "-", "%", "/", "!", "paren", "if", "f"}
+TopOf(u) == IF u.k = "if" THEN "if" ELSE u.v
+Init == t \in {[k |-> "top", v |-> o, kids |-> <<>>] : o \in Tops}
+Next == t.k = "top" /\ t' \in {u \in Trees : TopOf(u) = t.v}
 Spec == Init /\ [][Next]_t
 
 InfixRoundTrip ==
+  t.k = "top" \/
   LET p == ParseInfix(RenderInfix(t), PCI, FALSE, FALSE) IN
   p.r = "ok" /\ p.tree = Strip(t)
 SameAsPrefix ==
+  t.k = "top" \/
   LET p == ParseInfix(RenderInfix(t), PCI, FALSE, FALSE)
       q == ParsePrefix(RP0(Strip(t)), PCI, FALSE)
   IN (Strip(t).k \notin {"c", "v"}) => (q.r = "ok" /\ p.r = "ok" /\ p.tree = q.tree)
